@@ -110,7 +110,7 @@ func File(path string, o Opts) ([]byte, error) {
 				if o.Copy {
 					if id, ok := n.Fun.(*ast.Ident); ok && id.Name == "copy" && len(n.Args) == 2 {
 						needCsched = true
-						n.Fun = sel("csched", "Copy")
+						n.Fun = &ast.SelectorExpr{X: &ast.Ident{Name: "csched", NamePos: id.Pos()}, Sel: ast.NewIdent("Copy")}
 					}
 				}
 			}
@@ -121,6 +121,12 @@ func File(path string, o Opts) ([]byte, error) {
 		ast.Inspect(f, func(n ast.Node) bool {
 			switch b := n.(type) {
 			case *ast.BlockStmt:
+				if len(b.List) > 0 {
+					switch b.List[0].(type) {
+					case *ast.CaseClause, *ast.CommClause:
+						return true // body of a switch/select: clauses, not statements
+					}
+				}
 				b.List = withYields(b.List, site)
 				needCsched = needCsched || len(b.List) > 0
 			case *ast.CaseClause:
